@@ -29,7 +29,7 @@ Definition canon (m : merged) : mout :=
 
 Definition c07_model (i : c07_in) : c07_out :=
   let '(bigF, dest, fchain, aos) := i in
-  let vals := map (fun a => validate (snd (fst a)) (snd a)) aos in
+  let vals := map (fun a => validate (snd (fst a)) dest (snd a)) aos in
   (vals, match get_consensus bigF dest fchain (accepted vals aos) with
          | Ok m => Ok (canon m) | Err => Err | Panic => Panic | Spin => Spin end).
 
@@ -154,7 +154,7 @@ Definition lonely_slot (fchain : list (N * Z)) (aos : list ao) : bool :=
 (* the class predicates look at the observations the (model of the) validation accepts *)
 Definition c07_known (i : c07_in) : N :=
   let '(bigF, dest, fchain, aos) := i in
-  let vaos := accepted (map (fun a => validate (snd (fst a)) (snd a)) aos) aos in
+  let vaos := accepted (map (fun a => validate (snd (fst a)) dest (snd a)) aos) aos in
   if unknown_key fchain o_commits vaos || unknown_key fchain o_msgs vaos || unknown_key fchain o_tokens vaos then 1%N
   else if lonely_slot fchain vaos then 2%N else 0%N.
 
